@@ -28,7 +28,7 @@ NS_SETTINGS = 'esri="http://esri.com/xforms" kb="http://kobotoolbox.org/xforms"'
 def plan(tier, seed):
     n = 1600 if tier == "quick" else 24000
     return {"shards": 16, "timeout": 900 if tier == "quick" else 3000, "n": n,
-            "floors": {"suite_conversions_judged": 500, "parsed_outputs": n // 2, "distinct": 50, "hostile_name_cases": 40}}
+            "floors": {"suite_conversions_judged": 500, "parsed_outputs": n // 2, "distinct": 50, "hostile_name_cases": 40, "namespace_scope_cases": 300, "concurrent_conversions_judged": 500}}
 
 
 def make_form(rng, i, klass):
@@ -204,6 +204,54 @@ def run_shard(ctx):
             ok = check_output(ctx, o, klass, form, fmt, pretty, sig)
             if ok and i < 3 and not pretty:
                 ctx.sample({"class": klass, "format": fmt, "form_md": common.sheets_to_md(form.to_sheets())[:1500], "observed": "parsed OK, skeleton OK"})
+    # ---- several conversions at the same time in one process (a server): every document returned is still one well-formed XForm carrying the id
+    #      of the form it was asked for (judged after the threads have finished, like any other output)
+    import sys as _sys
+    import threading as _threading
+    rounds = 2 if ctx.tier == "quick" else 12
+    old_si = _sys.getswitchinterval()
+    _sys.setswitchinterval(1e-5)
+    try:
+        for rnd in range(rounds):
+            jobs = []
+            for k in range(6):
+                j = 70000 + (ctx.shard * 100 + rnd) * 6 + k
+                rng = ctx.rng("case", j)
+                form = make_form(rng, j, ["core", "text", "settings"][k % 3])
+                form.settings["form_id"] = f"conc_{ctx.shard}_{rnd}_{k}"
+                jobs.append((form, render.to_dict(form.to_sheets()), k % 2 == 1))
+            results = [[] for _ in jobs]
+            bar = _threading.Barrier(len(jobs))
+
+            def work(k):
+                form, wb, pretty = jobs[k]
+                try:
+                    bar.wait(timeout=30)
+                except _threading.BrokenBarrierError:
+                    pass
+                for _ in range(6):
+                    import copy as _copy
+                    results[k].append(drive.call_convert(_copy.deepcopy(wb), pretty_print=pretty, **dict(form.args)))
+            ts = [_threading.Thread(target=work, args=(k,)) for k in range(len(jobs))]
+            for t_ in ts:
+                t_.start()
+            for t_ in ts:
+                t_.join(300)
+            for k, (form, wb, pretty) in enumerate(jobs):
+                outs = results[k]
+                alone = drive.call_convert(__import__("copy").deepcopy(wb), pretty_print=pretty, **dict(form.args))
+                for o in outs:
+                    ctx.ctr("concurrent_conversions_judged")
+                    ctx.case(sig=f"threads|{rnd}|{k}|{o.ok}")
+                    if not o.ok:
+                        if alone.ok:
+                            ctx.viol("threads:refused-or-crashed-beside-other-conversions", f"converts alone, beside other conversions: {o.brief()[:200]}", common.witness(form, klass="threads", pretty=pretty))
+                        continue
+                    p_, v = invariants.c01_wellformed(o.xform, form.settings["form_id"])
+                    for key, what in v:
+                        ctx.viol(f"threads:{key.split(':')[0]}", f"a conversion running beside five others returned a document that is {what}", common.witness(form, klass="threads", pretty=pretty))
+    finally:
+        _sys.setswitchinterval(old_si)
     # ---- hostile names / control characters
     m = 320 if ctx.tier == "quick" else 4000
     for i in range(m):
@@ -250,6 +298,42 @@ def run_shard(ctx):
                     for key, what in v:
                         ctx.viol("hostile-name:choices-header:dropped-header-with-space-kept", f"choices column {hdr!r} (allow_choice_duplicates={acd}) reached the output: {what}",
                                  common.witness(f, channel="choices-header", bad=hdr, pretty=pretty, klass="names"))
+    # ---- namespace declarations written as attribute columns (bind::xmlns:ex, body::xmlns:ex, instance::xmlns:ex): a prefix is in scope on the element
+    #      that declares it and below it - used anywhere else (another row's bind, the same row's control, an earlier or later sibling, an element
+    #      nested in another branch) the form must be refused or the output must still bind every prefix
+    kk = 0
+    ROWS3 = [("text", "a1"), ("integer", "b2"), ("text", "c3")]
+    for decl_col in ("bind", "body", "instance"):
+        for use_col in ("bind", "body", "instance"):
+            for decl_row in range(3):
+                for use_row in range(3):
+                    for nest in ("flat", "repeat", "group-decl-on-section"):
+                        kk += 1
+                        if not ctx.mine(kk):
+                            continue
+                        rows = [Row("q", t, n, {"label": n.upper()}) for t, n in ROWS3]
+                        rows[use_row].cells[f"{use_col}::ex:flag"] = "1"
+                        if nest == "group-decl-on-section":
+                            # the declaration sits on a group row: its own element declares the prefix for what is below it in THAT tree only
+                            sec = Row("group", "begin group", "g", {"label": "G", f"{decl_col}::xmlns:ex": "http://example.org/ex"}, rows[:2])
+                            top = [sec, rows[2]]
+                        else:
+                            rows[decl_row].cells[f"{decl_col}::xmlns:ex"] = "http://example.org/ex"
+                            top = rows if nest == "flat" else [Row("repeat", "begin repeat", "r", {"label": "R"}, rows[:2]), rows[2]]
+                        f = gen.simple_form([])
+                        f.survey = top
+                        for pretty in (False, True):
+                            o = drive.convert_form(f, pretty=pretty)
+                            ctx.ctr("namespace_scope_cases")
+                            if not o.ok:
+                                ctx.ctr("namespace_scope_rejected")
+                                ctx.case(sig=f"ns-scope|{decl_col}|{use_col}|{decl_row}|{use_row}|{nest}|rejected")
+                                continue
+                            p_, v = invariants.c01_wellformed(o.xform)
+                            ctx.case(sig=f"ns-scope|{decl_col}|{use_col}|{decl_row}|{use_row}|{nest}|{'bad' if v else 'ok'}")
+                            for key, what in v:
+                                ctx.viol(f"namespace-scope:{decl_col}-declares:{use_col}-uses:{key.split(':')[0]}", f"[{nest}] {decl_col}::xmlns:ex on row {decl_row}, {use_col}::ex:flag on row {use_row}: "
+                                         f"accepted and the output is {what}", common.witness(f, klass="ns-scope", pretty=pretty))
     # ---- columns that address the generated parts of a control or bind (its element name, its ref/nodeset, the no-body flag) instead of adding an attribute
     RESERVED = [("body::tag", ["foo bar", "a<b", "upload", "x:y:z", "1tag", ""]), ("control::tag", ["in put", "a>b"]), ("body::ref", ["/data/zz", "zz", "/data/q1 "]),
                 ("body::nodeset", ["/data/zz"]), ("bind::nodeset", ["/data/zz"]), ("body::bodyless", ["yes", "true"]), ("bind::type", ["x y", "a<b"]), ("body::class", ["a b"]),
@@ -261,7 +345,6 @@ def run_shard(ctx):
                 k += 1
                 if not ctx.mine(k) or val == "":
                     continue
-                from ..model import Form, Row
                 f = Form()
                 cells = {"label": "O", col: val}
                 inner = [Row("q", "text", "inner", {"label": "I"})]
@@ -381,6 +464,9 @@ def replay(w):
     def chk(ctx, wit):
         if wit.get("klass") == "api":
             print("API history witness: re-run ./check C01 (the sequence is regenerated from the seed)")
+            return
+        if wit.get("klass") == "threads":
+            print("witness of the concurrent pass (the form is in the file): an interleaving cannot be replayed from a form - re-run ./check C01, the pass is seeded")
             return
         if wit.get("klass") == "nontext":
             o = drive.call_convert(wit["workbook"], pretty_print=wit.get("pretty", False))
